@@ -1,7 +1,7 @@
 (* C12 — the iHam orthoXML export describes the same HOG. *)
 From Coq Require Import List Arith Bool String Permutation.
 From PyHam Require Import Tax Ortho Loader Mapper Preds Nav Export Filter Hist Spell Whole Page.
-From PyHam.proofs Require Import ExplicitFacts ExportFacts LoftFacts SpellFacts WholeFacts RoundTripFacts DocRoundTripFacts PageFacts.
+From PyHam.proofs Require Import ExplicitFacts ExportFacts LoftFacts SpellFacts WholeFacts RoundTripFacts DocRoundTripFacts PageFacts NamesFacts.
 Import ListNotations.
 
 (* Proved for every loaded HOG (any shape, no alignment hypothesis): the exported groups reference exactly
@@ -92,6 +92,20 @@ Example c12_roundtrip_nonvacuous :
   | Err _ => False
   end.
 Proof. vm_compute. split; reflexivity. Qed.
+
+(* the same for every taxonomy the library accepts: build_taxonomy = Ok makes the node names pairwise different
+   (c15_unambiguous, finding F12 repaired), which is the only hypothesis on the tree the round trip needs *)
+Theorem c12_document_roundtrip_accepted_taxonomy : forall ui t0 t protid o p m ks,
+  build_taxonomy ui t0 = Ok t -> wf_node t (HHog o p m ks) = true -> NoDup (genes_of (HHog o p m ks)) ->
+  let x := HHog o p m ks in
+  exists l top, load t (export_doc t protid x) = Ok l /\ l_tops l = [top] /\
+    matches (hist_of x) x /\ matches (hist_of x) (snd top) /\ htax (snd top) = htax x /\ wf_node t (snd top) = true /\
+    wfbc t (forest_of l) = true.
+Proof.
+  intros ui t0 t protid o p m ks Hb Hwf Hnd. apply export_doc_roundtrip; [|exact Hwf|exact Hnd].
+  exact (built_all_names_inj ui t0 t Hb).
+Qed.
+Print Assumptions c12_document_roundtrip_accepted_taxonomy.
 
 (* ---------- the iHam page ---------- *)
 Theorem c12_page_always_built : forall t protid o p m ks,
